@@ -747,6 +747,10 @@ func TestReplay(t *testing.T) {
 		recordSession(s, info)
 		return
 	}
+	// a type-history replay is recognised by its "phases" member (types_test.go)
+	if replayTypeHistory(t, p) {
+		return
+	}
 	var c Case
 	if _, err := vstat.LoadReplay(p, &c); err != nil {
 		t.Fatalf("cannot load %s: %v", p, err)
